@@ -63,9 +63,9 @@ CHECKS = {
         ref="DESIGN.md 3.4, 4 C08",
     ),
     "C01": dict(
-        engine="Sky+PairIter",
-        technique="TLC model checking of spec/Sky.tla (discrete sky: assignment, radii, pruning, (lo,hi] rule, per-cell weight-product sums) over every scenario of several configuration families, with the scale->angle conversion and the pruning angle taken from the real code as TLC constants; sampled scenarios and every TLC counterexample realised on the real sphere under rigid placements and measured with crosscorrelate/autocorrelate, counts compared cell by cell with TLC's exact integers",
-        text="Sky.tla places objects on a 72-slot ring (5 deg lattice) with 2-3 patch centres, 2 redshift bins, one or several (also overlapping / descending) scales in angular, physical and comoving units, weights, and checks for EVERY scenario of each family (10^3..10^5 each) that the conservative pruning of patch pairs loses no pair, that linkage is symmetric and reflexive, that the cells partition the in-scale pairs; it prints the exact expected count of every (scale, bin, patch pair) cell and the per-bin weight sums. Deviation flags (radii of one catalog only; pruning angle at the floored redshift) must produce counterexamples, which are replayed on the code. A stratified sample of scenarios of every family is created with Catalog.from_dataframe on the real sphere (equator, across RA=0, over both poles, tilted great circles) and measured; because every scale threshold lies between lattice distances the counts of cross-, auto- and data-random pairs and sum_weights1/2 must equal the model's integers exactly. PairIter.tla models iter_patch_id_pairs (set.pop as a free choice) for every symmetric reflexive link relation on 3(4) patches: each linked pair exactly once, upper triangle for auto; the real iterator is run on every relation and its output must be one of the orders TLC enumerates. Families also cover very extended patches (radius_i + radius_j + max angle beyond pi), binned objects exactly on bin edges for both closed sides and physical scales in a curved cosmology; the scale-to-angle constants of the model are computed from astropy directly. Every realisation also measures RD and RR against a copy of the reference sample as reference randoms, runs after a pre-history of the tree caches (other closed side, edges moved by 2e-6), and half of the scenarios whose unknown objects all have weight 1 create those catalogs without a weight column.",
+        engine="Sky+PairIter+Progress",
+        technique="TLC model checking of spec/Sky.tla (discrete sky: assignment, radii, pruning, (lo,hi] rule, per-cell weight-product sums) over every scenario of several configuration families, with the scale->angle conversion and the pruning angle taken from the real code as TLC constants; sampled scenarios and every TLC counterexample realised on the real sphere under rigid placements and measured with crosscorrelate/autocorrelate, counts compared cell by cell with TLC's exact integers; TLC enumeration of every behaviour of spec/Progress.tla (progress wrapper: clock patterns, failing source, ranks) replayed on the real Indicator with a scripted clock",
+        text="Sky.tla places objects on a 72-slot ring (5 deg lattice) with 2-3 patch centres, 2 redshift bins, one or several (also overlapping / descending) scales in angular, physical and comoving units, weights, and checks for EVERY scenario of each family (10^3..10^5 each) that the conservative pruning of patch pairs loses no pair, that linkage is symmetric and reflexive, that the cells partition the in-scale pairs; it prints the exact expected count of every (scale, bin, patch pair) cell and the per-bin weight sums. Deviation flags (radii of one catalog only; pruning angle at the floored redshift) must produce counterexamples, which are replayed on the code. A stratified sample of scenarios of every family is created with Catalog.from_dataframe on the real sphere (equator, across RA=0, over both poles, tilted great circles) and measured; because every scale threshold lies between lattice distances the counts of cross-, auto- and data-random pairs and sum_weights1/2 must equal the model's integers exactly. PairIter.tla models iter_patch_id_pairs (set.pop as a free choice) for every symmetric reflexive link relation on 3(4) patches: each linked pair exactly once, upper triangle for auto; the real iterator is run on every relation and its output must be one of the orders TLC enumerates. Families also cover very extended patches (radius_i + radius_j + max angle beyond pi), binned objects exactly on bin edges for both closed sides and physical scales in a curved cosmology; the scale-to-angle constants of the model are computed from astropy directly. Every realisation also measures RD and RR against a copy of the reference sample as reference randoms, runs after a pre-history of the tree caches (other closed side, edges moved by 2e-6), and half of the scenarios whose unknown objects all have weight 1 create those catalogs without a weight column. Progress.tla models the Indicator wrapper every result of a progress=True run passes through (PassThrough, CompleteAtEnd, RaisePropagates for every pattern of clock advances, failing sources, root and other ranks); every terminal behaviour is replayed on the real class with a scripted timer and the items handed on must be the source's items, each once, in order.",
         note="Separations are multiples of 5 deg: geometry between lattice points (C14) is not exercised. Scenarios have 2-3 objects per catalog. With separation weighting TLC supplies the exact weight-product sum per lattice distance and the driver applies the power-law factor of the fine separation bin (plain float arithmetic, 1e-9 relative).",
         ref="DESIGN.md 3.5, 4 C01",
     ),
